@@ -180,7 +180,7 @@ class Continuous(Harness):
     real clock ticks in between."""
     name = "Continuous"
     title = "continuous trading: N submissions, a real round after each, real clock ticks between"
-    what_symbolic = "limit prices, volumes; kinds, sides and tick pattern are the case split"
+    what_symbolic = "limit prices (>= 0; 0 is what a sub-tick bid is floored to), volumes; kinds, sides and tick pattern are the case split"
     nontrivial_event = "at least one round produced a fill"
     bounds = {"quick": "N <= 3 orders, every side/kind pattern, a clock tick or none between orders",
               "thorough": "N <= 4 orders"}
@@ -210,7 +210,8 @@ class Continuous(Harness):
             if i > 0 and case["ticks"][i - 1] == "1":
                 tick(m)
             is_buy = case["sides"][i] == "B"
-            o = new_order(g, str(i), is_buy=is_buy, market=case["kinds"][i] == "1")
+            # accepted price 0 is legal (a positive bid below one tick is floored to it)
+            o = new_order(g, str(i), is_buy=is_buy, market=case["kinds"][i] == "1", price_lo=0)
             vol, price = o.volume, o.price
             log = m._add_order(o)
             rec = {"id": log.order_id, "is_buy": is_buy, "is_market": case["kinds"][i] == "1",
